@@ -18,6 +18,75 @@ import (
 
 func init() {
 	vx.Register("VH_C03_chain", VH_C03_chain)
+	vx.Register("VH_C03_step", VH_C03_step)
+}
+
+// VH_C03_step: run() entered from an ARBITRARY chain position (index symbolic
+// in [0, n+1]) with an arbitrary written/cancelled state and quiet handlers:
+// it starts exactly the handlers index..n (n = the action) in order, none
+// twice; only the first one if a status had already been sent; none if the
+// context is cancelled; and it leaves the index just past the last one started.
+// Chains longer than the k-step bound are covered by this lemma modulo the
+// state abstraction (index, written, cancelled).
+func VH_C03_step() {
+	n := vx.ParamInt("n")
+	idx := vx.Int(0, n+1)
+	written := vx.Bool()
+	cancelled := vx.Bool()
+	hasAction := vx.Bool()
+	var ran []int
+	var hs []Handler
+	for i := 0; i < n; i++ {
+		i := i
+		hs = append(hs, ContextInvoker(func(Context) { ran = append(ran, i) }))
+	}
+	ctx := &vReqCtx{done: make(chan struct{})}
+	if cancelled {
+		close(ctx.done)
+	}
+	spy := &vSpy{}
+	req := (&http.Request{Method: "GET", URL: &url.URL{Path: "/"}, Header: http.Header{}}).WithContext(ctx)
+	c := newContext(spy, req, nil, hs, nil).(*context)
+	if hasAction {
+		c.setAction(ContextInvoker(func(Context) { ran = append(ran, n) }))
+	}
+	if written {
+		c.ResponseWriter().WriteHeader(204)
+	}
+	c.index = idx
+	c.run()
+
+	var want []int
+	pos := idx
+	if !cancelled {
+		for pos <= n {
+			if pos == n && !hasAction {
+				pos++ // the missing action is stepped over
+				break
+			}
+			want = append(want, pos)
+			pos++
+			if written {
+				break
+			}
+		}
+	}
+	same := len(ran) == len(want)
+	if same {
+		for i := range ran {
+			if ran[i] != want[i] {
+				same = false
+			}
+		}
+	}
+	vx.Assert(same, "C03/step: from any position run() starts exactly the remaining handlers in order (one if already written, none if cancelled)")
+	vx.Assert(c.index == pos, "C03/step: the position ends just past the last handler started (unchanged if cancelled)")
+	c.Next()
+	c.Next()
+	if !cancelled && !written {
+		vx.Assert(len(ran) == len(want), "C03/step: further Next() calls do nothing once the chain is exhausted")
+	}
+	vx.Observe("step", idx, written, cancelled, hasAction, ran)
 }
 
 // vReqCtx is a request context whose cancellation the harness controls.
